@@ -264,7 +264,7 @@ static RegisterOp r_mc({"mzd_mul_mp", "C01", 0, nullptr, exec_mul, true});
 static RegisterOp r_md({"mzd_addmul_mp", "C01", 0, nullptr, exec_mul, true});
 static RegisterOp r_me({"djb", "C01", 0, nullptr, exec_mul, false});
 
-static Case gen_C01(const GenCtx &ctx) { return gen_from_ops("C01", ctx, 0); }
+static Case gen_C01(const GenCtx &ctx) { return gen_from_ops("C01", ctx, 15); }
 static RegisterProp p_C01({"C01",
                            "random: route (cubic x4, M4RM x3 with k in 0..10, Strassen x5 with generated cutoff incl. squaring by "
                            "passing the same object twice, multi-core front end in OpenMP builds, DJB compile+apply) x (m,l,n) from a "
